@@ -12,6 +12,7 @@ REPO = os.environ.get("VERIF_REPO", "/repo")
 def main():
     args = [a for a in sys.argv[1:] if not a.startswith("--")]
     with_tests = "--with-tests" in sys.argv
+    tier = "thorough" if "--thorough" in sys.argv else "quick"
     patch = os.path.abspath(args[0])
     props = args[1:] or ALL
     st = subprocess.run(["git", "-C", REPO, "status", "--porcelain", "--untracked-files=no"], capture_output=True, text=True).stdout.strip()
@@ -30,7 +31,7 @@ def main():
             print("EXISTING-TESTS: %s" % ("PASS" if ok else "FAIL " + t.replace("\n", " | ")[:400]))
         for p in props:
             env = dict(os.environ)
-            out = subprocess.run([os.path.join(ROOT, "check"), p, "--tier", "quick"], capture_output=True, text=True, env=env, cwd=ROOT)
+            out = subprocess.run([os.path.join(ROOT, "check"), p, "--tier", tier], capture_output=True, text=True, env=env, cwd=ROOT)
             lines = out.stdout.splitlines()
             first = next((l for l in lines if l.startswith("  [")), "")
             if out.returncode == 1:
